@@ -14,7 +14,7 @@ pub fn prop() -> Prop {
         rule: "values = 30 (all types, absent, empty string, strings with quote, comma, CR, LF, tab, blanks at both ends, non-ASCII, strings spelled like keywords and numbers, 64-bit and fractional numbers, nested values holding such strings); csv: every row of 1..2 selections (3 selections: quick a slice of 2 700 rows, thorough all 27 000) over the values x 4 sets of selection names (plain; with blank, comma, quote; non-ASCII; two selections sharing a name) and multi-record inputs; rows of 5 selections with a field of 15..8192 characters (quote, comma, line break or non-ASCII at the far end; long nested cells) in each column in turn; 100 and 1000 records in one run; text: every row of 1..2 selections over 24 values with an unambiguous spelling x every option set within 3 deviations of the defaults (thorough: the full product of 7 776 option sets) over items separator(4), string prefix/postfix(3), null/true/false keywords(3,2,2), missing-value keyword(3), --headers(2), escape sequences(5, two of them with a replacement that contains a character another sequence escapes), row separator(3); non-trivial = the row holds a string with a special character, a nested value, an absent value or a keyword look-alike; distinct by construction",
         explanation: "csv output is read back by an independent RFC 4180 reader (skip-initial-space): header = the names in order, N fields per record, each field recovered by type (string content, decimal spelling by exact value, True/False/null, concise JSON re-read by the strict reader and free of insignificant whitespace); text output is compared byte for byte with the rendering the option help pins (prefix + escaped characters + postfix, keywords, separators)",
         assumptions: COMMON_ASSUMPTIONS.to_vec(),
-        guards: vec!["non-ascii-text-before-the-selection-name", "long-fields", "quote-in-string", "comma-in-string", "newline-in-string", "absent-field", "nested-with-special-string", "header-with-special-name", "escape-sequence-applied", "missing-keyword-printed", "text-headers", "three-fields"],
+        guards: vec!["equals-signs-inside-the-selection", "non-ascii-text-before-the-selection-name", "long-fields", "quote-in-string", "comma-in-string", "newline-in-string", "absent-field", "nested-with-special-string", "header-with-special-name", "escape-sequence-applied", "missing-keyword-printed", "text-headers", "three-fields"],
         budget_s: (100, 1800),
         single_worker: false,
         run,
@@ -23,7 +23,7 @@ pub fn prop() -> Prop {
 }
 
 /// (JSON text or None for absent)
-const VALS: [Option<&str>; 37] = [
+const VALS: [Option<&str>; 38] = [
     None,
     Some("null"),
     Some("true"),
@@ -61,6 +61,7 @@ const VALS: [Option<&str>; 37] = [
     Some("\"=SUM(A1:A9)\""),
     Some("\"@alice\""),
     Some("\"+1-2\""),
+    Some("[\"\\u001b[0m\",{\"k\\u0001\":\"\\u007f\\u001f\"}]"),
 ];
 
 const NAMES: [[&str; 3]; 5] = [["a", "b", "c"], ["first name", "x,y", "q\"r"], ["é", "ñame", "日本"], ["v", "v", "w"], ["@id", "-x", "+y"]];
@@ -155,7 +156,7 @@ fn field_ok(f: &csv::Field, v: &Option<V>) -> Result<(), String> {
 }
 
 fn nontrivial_val(i: usize) -> bool {
-    matches!(i, 0 | 10 | 13..=18 | 21..=23 | 25..=28 | 30..=36)
+    matches!(i, 0 | 10 | 13..=18 | 21..=23 | 25..=28 | 30..=37)
 }
 
 fn csv_part(ctx: &mut Ctx) {
@@ -177,7 +178,11 @@ fn csv_part(ctx: &mut Ctx) {
                 }
                 let mut args: Vec<String> = vec!["--output-style=csv".into()];
                 for j in 0..n {
-                    if ni == 2 || (ni == 1 && j == 1) {
+                    if ni == 0 && j == n - 1 {
+                        // the expression itself holds `=` signs (and the name follows the last one)
+                        args.push(format!("--select=(? (!= \"a=b\" \"=\") .c{j} .nokey)={}", names[j]));
+                        ctx.guard("equals-signs-inside-the-selection");
+                    } else if ni == 2 || (ni == 1 && j == 1) {
                         // the same value through an expression that holds non-ASCII text in front of the name
                         args.push(format!("--select=(| (push [] . \"\u{e9}\u{20ac}\u{1f603}\") #0 .c{j})={}", names[j]));
                         ctx.guard("non-ascii-text-before-the-selection-name");
